@@ -395,6 +395,7 @@ def check(chk):
     _eject_outcome_and_give_up(chk, repo)
     _claims_move_in_pairs(chk, repo)
     _tracking_starts_from_stable_count(chk, repo)
+    _entrance_windows_per_switch(chk, repo)
 
 
 def _snapshots_and_jam(chk, repo):
@@ -558,6 +559,40 @@ def _tracking_starts_from_stable_count(chk, repo):
            text="entrance counter leave from a stable count")
 
 
+def _entrance_windows_per_switch(chk, repo):
+    """WINDOW-4: the entrance counter keeps one ignore window per entrance switch: a window is opened, tested and closed under the key of
+    the switch that was hit; nothing outside __init__ replaces or clears the whole table (one lane's window ending would re-open the
+    other lanes: a rattling ball is counted twice)."""
+    ES_ = "mpf/devices/ball_device/entrance_switch_counter.py"
+    c = repo.cls(ES_, "EntranceSwitchCounter")
+    n = 0
+    for m in c.methods.values():
+        params = [a.arg for a in m.node.args.args[1:]]
+        for x in walk_local(m.node):
+            whole = None
+            if isinstance(x, ast.Assign) and any(src(t) == "self.recycle_clear_time" for t in x.targets):
+                whole = x
+            if isinstance(x, ast.Call) and isinstance(x.func, ast.Attribute) and src(x.func.value) == "self.recycle_clear_time" and x.func.attr in ("clear", "update", "popitem"):
+                whole = x
+            if whole is not None:
+                n += 1
+                chk.analysed(m)
+                chk.ob("WINDOW-4", "EntranceSwitchCounter.%s leaves the other switches' ignore windows alone" % m.name, m.name == "__init__", m.where(whole),
+                       detail=short(whole, 60), construct=m.ident, text="whole window table written in " + m.name)
+            if isinstance(x, (ast.Assign, ast.Delete)):
+                for t in (x.targets if isinstance(x, (ast.Assign, ast.Delete)) else []):
+                    if isinstance(t, ast.Subscript) and src(t.value) == "self.recycle_clear_time":
+                        n += 1
+                        chk.analysed(m)
+                        chk.ob("WINDOW-4", "EntranceSwitchCounter.%s writes the window of the switch it was called for" % m.name, src(t.slice) in params, m.where(x),
+                               detail=src(t), construct=m.ident, text="window key in " + m.name)
+    h = c.methods["_entrance_switch_handler"]
+    reads = [x for x in ast.walk(h.node) if isinstance(x, ast.Call) and call_attr(x) == "get" and src(x.func.value) == "self.recycle_clear_time"]
+    ok = len(reads) == 1 and src(reads[0].args[0]) in [a.arg for a in h.node.args.args[1:]]
+    chk.ob("WINDOW-4", "a hit is ignored exactly while the window of *its* switch is open", ok, h.where(), construct=h.ident, text="window test key")
+    chk.ob("WINDOW-4", "window table writes examined (%d)" % n, n >= 3, ES_ + ":1", nontrivial=False)
+
+
 def battery():
     from sa.battery import M
     return [
@@ -598,6 +633,7 @@ def battery():
         M("idle mechanical eject keeps the ball in the device's pool (F19 reverted)", BD, "        self.available_balls -= 1\n        self.config['eject_targets'][0].available_balls += 1", "        self.config['eject_targets'][0].available_balls += 1", "CLAIM-4"),
         M("eject tracked from an unsettled count", "mpf/devices/ball_device/physical_ball_counter.py", "        await self._ball_count_handler.counter.wait_for_count_stable()\n        ball_changes =", "        ball_changes =", "STABLE-4"),
         M("entrance counter reports the leave without settling", "mpf/devices/ball_device/entrance_switch_counter.py", "        await self.wait_for_count_stable()\n        # wait 10ms", "        # wait 10ms", "STABLE-4"),
+        M("one lane's window end clears all windows", "mpf/devices/ball_device/entrance_switch_counter.py", "        self.recycle_clear_time[switch] = None", "        self.recycle_clear_time.clear()", "WINDOW-4"),
     ]
 
 
